@@ -25,6 +25,7 @@ type profile struct {
 	prune     bool
 	inits     bool
 	refresh   bool
+	hookInj   bool
 	maxID     int
 	failBias  bool  // fault lists are mostly failures (long failure streaks)
 	afters    []int // gaps between script steps (ms)
@@ -86,6 +87,12 @@ func genCase(t *rapid.T, p profile) Case {
 		}
 	})
 	c.Inject = rapid.SliceOfN(inj, 0, 12).Draw(t, "inject")
+	if p.hookInj {
+		hs := rapid.Custom(func(t *rapid.T) Step {
+			return Step{Kind: rapid.SampledFrom([]int{-1, -1, stUpsert, stUpsert, stDelete, stDelReinsert, stStatusOnly}).Draw(t, "hkind"), ID: rapid.IntRange(1, p.maxID).Draw(t, "hid")}
+		})
+		c.HookInject = rapid.SliceOfN(hs, 0, 10).Draw(t, "hookInject")
+	}
 	if p.waits {
 		wt := rapid.Custom(func(t *rapid.T) Wait {
 			return Wait{AtMs: rapid.IntRange(0, 400).Draw(t, "at"), Rev: rapid.IntRange(0, 20).Draw(t, "rev")}
@@ -216,9 +223,9 @@ func checkNoRetryPending(w *world) (string, error) {
 	return "", nil
 }
 
-var profC14 = profile{stepKinds: []int{stUpsert, stUpsert, stUpsert, stDelete, stDelReinsert}, injKinds: []int{0, 0, 0, 1, 2, 3}, maxFaults: 4, maxID: 6}
+var profC14 = profile{stepKinds: []int{stUpsert, stUpsert, stUpsert, stUpsert, stDelete, stDelReinsert, stStatusOnly}, injKinds: []int{0, 0, 0, 1, 2, 3, 5}, maxFaults: 4, maxID: 6}
 
-const ruleC14 = "a full hive+statedb+reconciler stack per case inside a synctest bubble (virtual clock): round size 1-5, round interval 1-10 ms, backoff min 1-50 ms x 1-64, single or batch operations; a timed script of inserts/updates/deletes/delete+re-insert over 1-6 objects; per-object finite fault lists for Update and Delete consumed call by call; operations take 0-30 virtual ms and may perform a user write to the object while in flight. After the script the clock is advanced by a bound derived from the configuration and the fault plan; then every live object must be Done with its latest contents being the last successful Update, every removed object absent from the target with a successful Delete last, no operation in flight and the retry low-watermark 0. Non-trivial = a failed operation followed by a change of that object before its retry, a failed Delete followed by re-insert, or failures with more objects than the round size; distinct by case encoding."
+const ruleC14 = "a full hive+statedb+reconciler stack per case inside a synctest bubble (virtual clock): round size 1-5, round interval 1-10 ms, backoff min 1-50 ms x 1-64, single or batch operations; a timed script of inserts/updates/deletes/delete+re-insert and status-only writes of a second reconciler over 1-6 objects; per-object finite fault lists for Update and Delete consumed call by call; operations take 0-30 virtual ms and may perform a user write to the object while in flight. After the script the clock is advanced by a bound derived from the configuration and the fault plan; then every live object must be Done with its latest contents being the last successful Update, every removed object absent from the target with a successful Delete last, no operation in flight and the retry low-watermark 0. Non-trivial = a failed operation followed by a change of that object before its retry, a failed Delete followed by re-insert, or failures with more objects than the round size; distinct by case encoding."
 
 func TestC14Converges(t *testing.T) {
 	recTest(t, "C14", "TestC14Converges", ruleC14, profC14, func(w *world) (string, error) {
@@ -336,13 +343,13 @@ func checkWriteBack(w *world) (string, error) {
 	return "", nil
 }
 
-var profC15 = profile{stepKinds: []int{stUpsert, stUpsert, stUpsert, stDelete, stDelReinsert, stInsertDone, stStatusOnly, stPrune, stInitDone}, injKinds: []int{0, 1, 1, 2, 3, 5, 5}, maxFaults: 3, prune: true, inits: true, refresh: true, maxID: 4}
+var profC15 = profile{stepKinds: []int{stUpsert, stUpsert, stUpsert, stDelete, stDelReinsert, stInsertDone, stStatusOnly, stPrune, stInitDone}, injKinds: []int{0, 1, 1, 2, 3, 5, 5}, maxFaults: 3, prune: true, inits: true, refresh: true, hookInj: true, maxID: 4}
 
-const ruleC15 = "the C14 stack with write injection: while an Update/UpdateBatch/Delete call is in flight the mock performs a user write on the very object being reconciled (update of the data, delete, delete+re-insert, or a second reconciler's status-only change that keeps the pending id), i.e. between the reconciler's snapshot and its status commit; objects are also inserted with status Done, initializers are registered before start and completed by script steps, Prune() is triggered by script steps and by an interval, and in half of the cases the periodic refresher (50/300 ms) re-marks Done objects as Refreshing. Every committed table state is recorded at the commit.rootStored hook with the committing goroutine (user or reconciler). Checked: a reconciler write changes nothing but the status, never re-creates or removes an object, marks Done/Error only a version (id, generation) that a completed Update call with that outcome was given; Update is only called with Pending/Refreshing objects and never for user-Done versions; Prune only when initialized and with exactly Table.All of its transaction; finally everything converges. Non-trivial = a user write hit an operation in flight; distinct by case encoding."
+const ruleC15 = "the C14 stack with write injection: while an Update/UpdateBatch/Delete call is in flight the mock performs a user write on the very object being reconciled (update of the data, delete, delete+re-insert, or a second reconciler's status-only change that keeps the pending id), i.e. between the reconciler's snapshot and its status commit; further user writes are performed at the wtxn.beforeLock hook of the reconciler's own write transactions (status commit, refresher), i.e. after it decided to write and before it holds the table lock; objects are also inserted with status Done, initializers are registered before start and completed by script steps, Prune() is triggered by script steps and by an interval, and in half of the cases the periodic refresher (50/300 ms) re-marks Done objects as Refreshing. Every committed table state is recorded at the commit.rootStored hook with the committing goroutine (user or reconciler). Checked: a reconciler write changes nothing but the status, never re-creates or removes an object, marks Done/Error only a version (id, generation) that a completed Update call with that outcome was given; Update is only called with Pending/Refreshing objects and never for user-Done versions; Prune only when initialized and with exactly Table.All of its transaction; finally everything converges. Non-trivial = a user write hit an operation in flight; distinct by case encoding."
 
 func TestC15WriteBack(t *testing.T) {
 	recTest(t, "C15", "TestC15WriteBack", ruleC15, profC15, checkWriteBack, func(cl []string) bool {
-		return has(cl, "write_while_op_in_flight") || has(cl, "inject_upsert") || has(cl, "inject_delete") || has(cl, "inject_delete+reinsert") || has(cl, "inject_statusOnly")
+		return has(cl, "write_while_op_in_flight") || has(cl, "write_injected_before_reconciler_txn") || has(cl, "inject_upsert") || has(cl, "inject_delete") || has(cl, "inject_delete+reinsert") || has(cl, "inject_statusOnly")
 	})
 }
 
